@@ -211,15 +211,22 @@ abbrev Apps := List (String × List DirApp)
 
 def Apps.get (a : Apps) (path : String) : List DirApp := ((a.find? (·.1 == path)).map (·.2)).getD []
 
+/-- the directive nodes for which `include_custom_schema_directive(name)` holds, in order; every test
+    goes through the module-level state -/
+def keepCustom : List DirApp → PrinterState → List DirApp × PrinterState
+  | [], st => ([], st)
+  | d :: ds, st =>
+    let (spec, st1) := st.member d.name
+    let (rest, st2) := keepCustom ds st1
+    (if spec then rest else d :: rest, st2)
+
 /-- `print_directives(definition)` -/
 def printDirectives (o : Opts) (apps : Apps) (path : String) (st : PrinterState) : String × PrinterState :=
   if !o.custom then ("", st) else
   let nodes := apps.get path
   if nodes.isEmpty then ("", st) else
-  let (kept, st') := nodes.foldl (fun (acc : List String × PrinterState) d =>
-      let (spec, st2) := acc.2.member d.name
-      (if spec then acc.1 else acc.1 ++ [dirAppText d], st2)) ([], st)
-  (" " ++ " ".intercalate kept, st')
+  let (kept, st') := keepCustom nodes st
+  (" " ++ " ".intercalate (kept.map dirAppText), st')
 
 def DEFAULT_DEPRECATION := "No longer supported"
 
